@@ -43,7 +43,7 @@ fn lib_strategy() -> impl Strategy<Value = LibCase> {
     (
         prop_oneof![6 => shape_strategy(1, 6, 1, 6, 600).boxed(), 1 => big_shape().boxed()],
         prop::collection::vec(zoo_bits(), 600),
-        0usize..=17,
+        prop_oneof![12 => 0usize..=17, 3 => 18usize..=60, 1 => prop_oneof![Just(100usize), Just(330), Just(400)]],
         any::<bool>(),
     )
         .prop_map(|(shape, pool, precision, npy)| {
@@ -111,7 +111,8 @@ fn eval_lib(ctx: &Ctx, case: &LibCase) -> Verdict {
         .nontrivial(nontrivial)
         .label(if case.npy { "npy" } else { "text" })
         .label(format!("axes={}", case.shape.len()))
-        .label(if has_special { "has-nan-or-inf" } else { "all-finite" }))
+        .label(if has_special { "has-nan-or-inf" } else { "all-finite" })
+        .label(if p > 17 { "precision>17" } else { "precision<=17" }))
 }
 
 // ---------------------------------------------------------------------------------------------
@@ -155,6 +156,10 @@ pub struct PipeCase {
     /// for Link::File: the output path already holds this many bytes of an earlier, longer file
     #[serde(default)]
     pub preexisting: Option<usize>,
+    /// name of the intermediate file / fifo: 0 = extension matching the format, 1 = `.out`,
+    /// 2 = the *other* format's extension, 3 = none, 4 = `.txt`
+    #[serde(default)]
+    pub naming: u8,
 }
 
 fn value_spec(max_elems: usize) -> impl Strategy<Value = Spec> {
@@ -177,14 +182,16 @@ fn pipe_strategy() -> impl Strategy<Value = PipeCase> {
         prop_oneof![3 => Just(Link::File), 2 => Just(Link::HarnessPipe), 2 => Just(Link::ShellPipe), 1 => Just(Link::DevStdin), 1 => Just(Link::Fifo)],
         0usize..=10,
         prop::option::weighted(0.5, prop_oneof![Just(1usize), 1usize..=200, 4000usize..=40_000]),
+        prop_oneof![3 => Just(0u8), 1 => Just(1u8), 2 => Just(2u8), 1 => Just(3u8), 1 => Just(4u8)],
     )
-        .prop_map(|(spec, producer, consumer, link, precision, preexisting)| PipeCase {
+        .prop_map(|(spec, producer, consumer, link, precision, preexisting, naming)| PipeCase {
             spec,
             producer,
             consumer,
             link,
             precision,
             preexisting,
+            naming,
         })
 }
 
@@ -211,7 +218,15 @@ fn eval_pipe(ctx: &Ctx, case: &PipeCase) -> Verdict {
         Consumer::Fold => vec!["fold".into(), "--precision".into(), "12".into(), "--fill".into(), "minus-one".into()],
         Consumer::StatSum => vec!["stat".into(), "-s".into(), "sum".into(), "--precision".into(), "9".into()],
     };
-    let mid = format!("mid.{ext}");
+    let suffix = match case.naming {
+        0 => format!(".{ext}"),
+        1 => ".out".to_string(),
+        2 => if ext == "npy" { ".sfs".to_string() } else { ".npy".to_string() },
+        3 => String::new(),
+        _ => ".txt".to_string(),
+    };
+    let mid = format!("mid{suffix}");
+    let fifo = format!("link{suffix}");
     let _ = std::fs::remove_file(dir.join(&mid));
     if let (Link::File, Some(n)) = (case.link, case.preexisting) {
         // the output path already exists and holds an earlier (typically longer) spectrum file
@@ -253,14 +268,14 @@ fn eval_pipe(ctx: &Ctx, case: &PipeCase) -> Verdict {
             prod_args.push("in.sfs".into());
             let bin = ctx.sfs_bin.to_string_lossy().into_owned();
             let script = format!(
-                "set -o pipefail; rm -f link.fifo; mkfifo link.fifo; \"{bin}\" {} > link.fifo & \"{bin}\" {} link.fifo; rc=$?; wait; rm -f link.fifo; exit $rc",
+                "set -o pipefail; rm -f {fifo}; mkfifo {fifo}; \"{bin}\" {} > {fifo} & \"{bin}\" {} {fifo}; rc=$?; wait; rm -f {fifo}; exit $rc",
                 prod_args.join(" "),
                 cons_args.join(" ")
             );
             cli::run_bin(ctx, std::path::Path::new("/bin/bash"), &["-c", &script], Input::Null, &dir, &[])
         }
     };
-    let what = format!("{:?} -> {:?} via {:?} (precision {})", case.producer, case.consumer, case.link, case.precision);
+    let what = format!("{:?} -> {:?} via {:?} (precision {}, intermediate named *{suffix:?})", case.producer, case.consumer, case.link, case.precision);
     ensure!(final_run.ok(), "{what}: the consumer did not accept the producer's output: {}", final_run.describe());
     let tol = |w: f64| 1e-9 * (1.0 + w.abs());
     match case.consumer {
@@ -292,7 +307,8 @@ fn eval_pipe(ctx: &Ctx, case: &PipeCase) -> Verdict {
         .label(format!("{:?}", case.consumer))
         .label(format!("{:?}", case.link))
         .label(if case.link == Link::File && case.preexisting.is_some() { "overwrites-existing-file" } else { "fresh-output" })
-        .label(if case.spec.values.len() > 1024 { ">1024-values" } else { "<=1024-values" }))
+        .label(if case.spec.values.len() > 1024 { ">1024-values" } else { "<=1024-values" })
+        .label(format!("intermediate-name={}", ["matching", ".out", "other-format", "none", ".txt"][case.naming.min(4) as usize])))
 }
 
 // ---------------------------------------------------------------------------------------------
@@ -451,7 +467,7 @@ pub fn check(ctx: &Ctx) -> Check {
     let parts: Vec<Box<dyn Part>> = vec![
         Box::new(RandomPart {
             name: "lib-roundtrip",
-            rule: "shapes with 1..6 axes (<=600 cells; one case in seven has 255..12000 cells with sizes around powers of two) x f64 zoo (+-0, subnormals, 1e300, negatives, NaN payloads, +-inf) x precision 0..17 x {text, npy}: write::Builder -> file -> read::Builder with auto-detected format; npy bit-identical, text within half a unit of the p-th decimal (+1 ulp) for finite values, non-finite values must not make the read fail; non-trivial = (>=2 axes or a special value) and (npy or a value whose p-decimal rounding is not the identity)",
+            rule: "shapes with 1..6 axes (<=600 cells; one case in seven has 255..12000 cells with sizes around powers of two) x f64 zoo (+-0, subnormals, 1e300, negatives, NaN payloads, +-inf, values of 1e-18..1e-40) x precision 0..17 (one case in five: 18..60, 100, 330, 400) x {text, npy}: write::Builder -> file -> read::Builder with auto-detected format; npy bit-identical, text within half a unit of the p-th decimal (+1 ulp) for finite values, non-finite values must not make the read fail; non-trivial = (>=2 axes or a special value) and (npy or a value whose p-decimal rounding is not the identity)",
             cases: ctx.tier.pick(12_000, 400_000),
             strategy: Box::new(|| lib_strategy().boxed()),
             eval: Box::new(eval_lib),
